@@ -60,13 +60,13 @@ impl<T> core::ops::Deref for CVec<T> {
     type Target = [T];
 
     fn deref(&self) -> &Self::Target {
-        unsafe { core::slice::from_raw_parts(self.data, self.len) }
+        unsafe { crate::slice::raw_slice(self.data, self.len) }
     }
 }
 
 impl<T> core::ops::DerefMut for CVec<T> {
     fn deref_mut(&mut self) -> &mut Self::Target {
-        unsafe { core::slice::from_raw_parts_mut(self.data, self.len) }
+        unsafe { crate::slice::raw_slice_mut(self.data, self.len) }
     }
 }
 
